@@ -168,7 +168,15 @@ def run_case(case):
             except Exception as err:
                 bad("closest-param-raised", f"{type(err).__name__}: {err}", query=qi, offset=mag)
                 continue
-            dmin = float(np.min(np.linalg.norm(dense - query, axis=1)))
+            dd_all = np.linalg.norm(dense - query, axis=1)
+            dmin = float(np.min(dd_all))
+            # validity predicate (decided from the sampling alone, before looking at the answer): a query that has
+            # two separate, nearly equidistant closest points lies next to the medial axis and is not in the alphabet
+            if not discrete and mag > 0:
+                jbest = int(np.argmin(dd_all))
+                locmin = [j for j in range(1, len(dd_all) - 1) if dd_all[j] <= dd_all[j - 1] and dd_all[j] <= dd_all[j + 1] and abs(j - jbest) > 40]
+                if any(dd_all[j] < 1.1 * dmin + 1e-9 for j in locmin) or dd_all[0] < 1.1 * dmin and jbest > 40 or dd_all[-1] < 1.1 * dmin and jbest < len(dd_all) - 41:
+                    continue
             d = float(np.linalg.norm(p - query))
             if d > dmin + 1e-6 * (1 + L):
                 bad("closest-param-not-closest", f"returned parameter {t}: distance {d:.6g}; a sampled point of the curve is at distance {dmin:.6g}", query=qi, offset=mag)
